@@ -623,7 +623,6 @@ def _shipped_worker(args):
     spy = Spy(mm)
     path = os.path.join(env.REPO, "osaca", "data", arch + ".yml")
     order = lc.file_order_names(path)
-    # loaded order: single-name entries in file order, then the expansions of multi-name entries
     loaded = mm._data["instruction_forms_dict"]
     singles, multis = {}, {}
     for ridx, names in enumerate(order):
@@ -631,11 +630,24 @@ def _shipped_worker(args):
             (singles if len(names) == 1 else multis).setdefault(nm, []).append(ridx)
     per_name = {}
     stats = {"entries": 0, "unprojectable": 0, "unrenderable": 0, "piecewise": 0, "cases": 0, "mismatch_order": 0}
+    fps = lc.file_order_fingerprints(path)
     for nm, objs in loaded.items():
-        ridx = singles.get(nm, []) + multis.get(nm, [])
+        # identify every loaded entry with its entry in the file by content (data fingerprint), not by
+        # position: no assumption about the order the loader keeps (that order is what is being checked)
+        raw = sorted(singles.get(nm, []) + multis.get(nm, []))
+        ridx, unused = [], list(raw)
+        if len(fps) == len(order):
+            for o in objs:
+                fp = lc.entry_fingerprint(o.throughput, o.latency, o.port_pressure)
+                hit = next((r for r in unused if fps[r] == fp), None)
+                if hit is None:
+                    ridx = []
+                    break
+                unused.remove(hit)
+                ridx.append(hit)
         if len(ridx) != len(objs):
             stats["mismatch_order"] += 1
-            ridx = list(range(len(objs)))
+            ridx = raw if len(raw) == len(objs) else list(range(len(objs)))
         ents = []
         for r, o in zip(ridx, objs):
             kinds = [lc.project_entry_operand(isa, op) for op in o.operands]
